@@ -31,6 +31,7 @@ type c08Level struct {
 	Inspection  bool      `json:"inspection"`
 	InspectExit int       `json:"inspect_exit"`
 	Expired     bool      `json:"expired"`
+	ExpiresText string    `json:"expires_text,omitempty"` // the level's expiry written like this (a form the format does not allow)
 }
 
 type c08Case struct {
@@ -46,7 +47,7 @@ type c08Case struct {
 }
 
 var c08LeafDefects = []string{"missing-link", "forged-link", "tampered-link", "rule-violation", "threshold"}
-var c08SubDefects = []string{"sub-foreign-sig", "sub-bad-sig", "sub-missing-dir", "sub-expired", "sub-inspection-fails", "sub-dir-in-cwd", "sub-disagree", "sub-two-spellings"}
+var c08SubDefects = []string{"sub-foreign-sig", "sub-bad-sig", "sub-missing-dir", "sub-expired", "sub-expiry-malformed", "sub-inspection-fails", "sub-dir-in-cwd", "sub-disagree", "sub-two-spellings"}
 
 // c08Decor is appended to every generated step name of the case being drawn (step names are free
 // text: characters that mean something to a file-name pattern must not mean anything here).
@@ -236,6 +237,9 @@ func (b *c08Builder) buildLevel(lv c08Level, dir string, isRoot bool) hx.MLayout
 	if lv.Expired {
 		lay.Expires = "2001-01-01T00:00:00Z"
 	}
+	if lv.ExpiresText != "" {
+		lay.Expires = lv.ExpiresText
+	}
 	if isRoot && b.c.InnerCert != "" && b.certs != nil {
 		// the root layout knows the intermediate CA (for functionaries of its own): that is the root layout's business
 		ik := hx.MKeyFromLib(b.certs["inter"].KeyObject())
@@ -359,6 +363,12 @@ func (b *c08Builder) buildLevel(lv c08Level, dir string, isRoot bool) hx.MLayout
 				if defectHere && st.Defect == "sub-expired" {
 					sub.Expired = true
 					b.defects = append(b.defects, "sub-expired@"+st.Name)
+				}
+				if defectHere && st.Defect == "sub-expiry-malformed" {
+					// a properly signed sublayout whose expiry is no timestamp of the required form (and long past
+					// under any reading): a sublayout like that is no sublayout that verified
+					sub.ExpiresText = []string{"2020-01-01T00:00:00+00:00", "2020-01-01 00:00:00Z", "yesterday", "2020-01-01"}[(len(st.Name)+fi)%4]
+					b.defects = append(b.defects, "sub-expiry-malformed@"+st.Name)
 				}
 				if defectHere && st.Defect == "sub-inspection-fails" {
 					sub.InspectExit = 1
